@@ -96,7 +96,7 @@ func Preset(prop string, adversarial bool, r *scen.Rand) *Params {
 		p.Alpha = Alpha{Plain: 9, Framing: 1, Structured: 1}
 		p.Envs = []map[string]string{envOff, envUpd, envUpd, envCI}
 		p.UpdateOpt = 0.3
-		p.EditKinds = []string{"value", "addcall", "addtest"}
+		p.EditKinds = []string{"value", "addcall", "addtest", "skip"}
 		p.EditValueP = 0.5
 		p.MinTests = 2
 		p.MaxTests = 5
